@@ -454,21 +454,23 @@ def _parse_schema(
     # Handle different detection results
     if detection_result.action == CycleAction.RETURN_EXISTING:
         # Schema already completed - return existing
-        context.unified_exit_schema(schema_name)  # Balance the enter call
         if schema_name:
             existing_schema = context.unified_cycle_context.parsed_schemas.get(schema_name)
             if existing_schema:
+                context.unified_exit_schema(schema_name)  # Balance the enter call
                 return existing_schema
             # Fallback to legacy parsed_schemas if not in unified context
             existing_schema = context.parsed_schemas.get(schema_name)
             if existing_schema:
+                context.unified_exit_schema(schema_name)  # Balance the enter call
                 return existing_schema
-            # If schema marked as existing but not found anywhere, it might be a state management issue
-            # Reset the state and continue with normal parsing
+            # If schema marked as existing but not found anywhere (e.g. an unregistered synthetic
+            # primitive), it might be a state management issue: parse it again. Mark it in progress
+            # so that the exit in the `finally` below completes it again.
             from .unified_cycle_detection import SchemaState
 
-            context.unified_cycle_context.schema_states[schema_name] = SchemaState.NOT_STARTED
-        # Don't call unified_exit_schema again, continue to normal parsing
+            context.unified_cycle_context.schema_states[schema_name] = SchemaState.IN_PROGRESS
+        # The enter call above is balanced by the `finally` of the normal parsing path below
 
     elif detection_result.action == CycleAction.RETURN_PLACEHOLDER:
         # Schema is already a placeholder - return it
